@@ -33,7 +33,7 @@ def make_worker(tier):
             if not vals:
                 continue
             n = len(vals)
-            pick = [vals[n // 2]] if tier == 'quick' else [vals[0], vals[n // 2], vals[-1]]
+            pick = [vals[n // 2]] if tier == 'quick' else (list(vals) if n <= 16 else [vals[0], vals[n // 4], vals[n // 2], vals[3 * n // 4], vals[-1]])
             for v, d in pick:
                 if len(d) > 600:
                     continue
